@@ -8,6 +8,7 @@ from vlib import is_diagnosed
 
 def finish(ctx, prop, R, groups, rule, assume, extra=None, nproc=10, mcstats=None):
     ver = ctx.validate("Trace_Asm", R.traces(), nproc=nproc)
+    ver["rej"] += getattr(ctx, "extra_rej", [])
     F = Findings()
     viol, known, other = flow.classify(ctx, ver, R, F, prop)
     clean = sum(1 for c in R.cases if not is_diagnosed(R.end(c["id"])))
